@@ -376,25 +376,75 @@ def check_case(case: Dict[str, Any], col: Collector, only: Any = None) -> None:
             col.add("duplicate_node_uuid", {}, rep, got["uuids"])
 
 
+def special_clauses(col: Collector) -> None:
+    """Identity-bearing differences that the YAML-shaped generator cannot express (class-valued processors, numpy sequences)."""
+    import numpy as np
+
+    from ..lib import components
+
+    observe.ensure_registered()
+
+    def ident(nodes):
+        rec = c04.identity_record({"extensions": ["verif.lib.components"], "pipeline": {"nodes": nodes}})
+        return rec
+
+    def sweep_of(proc, values):
+        return [{"processor": "FloatDataSource"},
+                {"processor": proc, "derive": {"parameter_sweep": {"parameters": {"k": "2.0 * t"}, "variables": {"t": {"values": values}}, "collection": "FloatDataCollection"}}}]
+
+    # (1) the wrapped processor: two different classes that share their __name__
+    a, b = ident(sweep_of(components.VNsA.Scale, [1.0, 2.0])), ident(sweep_of(components.VNsB.Scale, [1.0, 2.0]))
+    col.count({"special": "same_named_wrapped_classes"}, ["op:special_same_named_wrapped_classes"], True, key="special:same_named")
+    if "payload_error" not in a and "payload_error" not in b:
+        for f in ("semantic_id", "config_id"):
+            if a.get(f) == b.get(f):
+                col.add("mutation_keeps_" + f, {"op": "special_same_named_wrapped_classes"}, {"special": "same_named_wrapped_classes"}, a.get(f), "a different " + f)
+    # (2) the variable domain: long sequences of numpy integers (not JSON values) changed at one position
+    for n in (40, 1000, 1001, 1201):
+        base = [np.int64(i) for i in range(n)]
+        ra = ident(sweep_of("VInPlaceScaleOp", base))
+        for pos in (0, 3, n // 2, n - 4, n - 1):
+            mut = list(base)
+            mut[pos] = np.int64(10 ** 6 + pos)
+            rb = ident(sweep_of("VInPlaceScaleOp", mut))
+            case = {"special": "numpy_sequence_element", "n": n, "pos": pos}
+            col.count(case, ["op:special_numpy_sequence_element"], True, key=f"special:np:{n}:{pos}")
+            if "payload_error" in ra or "payload_error" in rb:
+                col.exclude(1, "special_not_inspectable")
+                continue
+            for f in ("semantic_id", "config_id"):
+                if ra.get(f) == rb.get(f):
+                    col.add("mutation_keeps_" + f, {"op": "special_numpy_sequence_element", "n": n, "where": "edge" if pos in (0, n - 1) else "interior"}, case, ra.get(f), "a different " + f)
+
+
 def plan(tier: str, seed: int, scale: float = 1.0) -> List[Dict[str, Any]]:
     nshards, n = (48, 16) if tier == "quick" else (320, 40)
-    return [{"seed": seed * 9001 + i, "n": max(5, int(n * scale)), "timeout": 900} for i in range(nshards)]
+    return [{"seed": seed * 9001 + i, "n": max(5, int(n * scale)), "timeout": 900} for i in range(nshards)] + [{"kind": "special", "timeout": 900}]
 
 
 def run_shard(spec: Dict[str, Any]) -> Dict[str, Any]:
     col = Collector(max_hashes=2000000)
+    if spec.get("kind") == "special":
+        special_clauses(col)
+        return col.result()
     run_campaign(c04.config_case(), lambda c: check_case(c, col), spec["n"], spec["seed"])
     return col.result()
 
 
 def replay(case: Dict[str, Any]) -> List[Dict[str, Any]]:
     col = Collector()
+    if case.get("special"):
+        special_clauses(col)
+        return [{"check": b["check"], "features": b["features"], "observed": b["observed"], "expected": b["expected"], "case": b["case"]}
+                for b in col.buckets.values() if b["case"].get("special") == case["special"]]
     check_case(case, col, only=case.get("mutation"))
     return [{"check": b["check"], "features": b["features"], "observed": b["observed"], "expected": b["expected"],
              "case": b["case"]} for b in col.buckets.values()]
 
 
 def valid(case: Any) -> bool:
+    if isinstance(case, dict) and case.get("special"):
+        return True
     return c04.valid(dict(case, rewrites=[]))
 
 
@@ -416,8 +466,8 @@ OPS = ["processor", "processor_template_text", "processor_slice_wrapped", "proce
        "sweep_mode", "sweep_broadcast", "sweep_collection",
        "param_str_trailing_space", "param_str_leading_space", "param_str_case", "param_float_ulp", "param_float_sign", "param_list_reversed", "param_list_length",
        "param_dict_key", "sweep_var_sequence_swap_adjacent", "sweep_var_sequence_reversed",
-       "sweep_var_sequence_retyped", "sweep_expr_swap_noncommutative", "sweep_expr_chain_operands", "sweep_expr_swap_branches", "sweep_expr_min_max"]
+       "sweep_var_sequence_retyped", "special_same_named_wrapped_classes", "sweep_expr_swap_noncommutative", "sweep_expr_chain_operands", "sweep_expr_swap_branches", "sweep_expr_min_max"]
 
 
 def label_requirements(tier: str) -> Dict[str, Any]:
-    return {"op:" + o: (15 if o in ("sweep_var_scale", "processor_dotted_key") else 40) for o in OPS}
+    return {"op:" + o: (1 if o.startswith("special_") else 15 if o in ("sweep_var_scale", "processor_dotted_key") else 40) for o in OPS}
